@@ -36,6 +36,7 @@ def catalogue(tier):
     add("disconnected", 4, ["ab", "dc"], [2, 1, 2, 3])
     add("tri+pendant", 4, ["acb", "cd"], [2, 2, 2, 2])
     add("cycle5", 5, ["ab", "bc", "cd", "de", "ea"])
+    add("fan", 5, ["eab", "ebc", "ecd"])             # three cliques sharing e: the outer two are NOT adjacent in the junction tree
     if tier == "thorough":
         add("chain5", 5, ["ab", "bc", "cd", "de"])
         add("two-triangles", 4, ["abc", "bcd", "ad"])
